@@ -74,6 +74,61 @@ impl Block for BitTap {
     }
 }
 
+/// Debug tap (env RRH_TAPS): passes samples through and keeps a running hash and count, printed on drop.
+struct HashTap<T: crate::ring::Elem> {
+    label: String,
+    src: ReadStream<T>,
+    dst: rustradio::stream::WriteStream<T>,
+    hash: u64,
+    count: usize,
+    windows: usize,
+}
+impl<T: crate::ring::Elem> BlockName for HashTap<T> {
+    fn block_name(&self) -> &str {
+        "HashTap"
+    }
+}
+impl<T: crate::ring::Elem> BlockEOF for HashTap<T> {
+    fn eof(&mut self) -> bool {
+        self.src.eof()
+    }
+}
+impl<T: crate::ring::Elem> Block for HashTap<T> {
+    fn work(&mut self) -> Result<BlockRet> {
+        let (i, _) = self.src.read_buf()?;
+        if i.is_empty() {
+            return Ok(BlockRet::WaitForStream(&self.src, 1));
+        }
+        let mut o = self.dst.write_buf()?;
+        if o.is_empty() {
+            return Ok(BlockRet::WaitForStream(&self.dst, 1));
+        }
+        let n = i.len().min(o.len());
+        o.slice()[..n].copy_from_slice(&i.slice()[..n]);
+        for v in &i.slice()[..n] {
+            self.hash = crate::drip::mix64(self.hash ^ (v.to_nat() as u64));
+        }
+        self.count += n;
+        self.windows += 1;
+        o.produce(n, &[]);
+        i.consume(n);
+        Ok(BlockRet::Again)
+    }
+}
+impl<T: crate::ring::Elem> Drop for HashTap<T> {
+    fn drop(&mut self) {
+        eprintln!("tap {:14} count={:8} windows={:6} hash={:016x}", self.label, self.count, self.windows, self.hash);
+    }
+}
+fn tap<T: crate::ring::Elem + Sync>(label: &str, src: ReadStream<T>, blocks: &mut Vec<B>) -> ReadStream<T> {
+    if std::env::var("RRH_TAPS").is_err() {
+        return src;
+    }
+    let (dst, out) = rustradio::stream::new_stream();
+    blocks.push(Box::new(HashTap { label: label.to_string(), src, dst, hash: 0, count: 0, windows: 0 }));
+    out
+}
+
 fn frame_bits(payloads: &[Vec<u8>], preamble: usize, between: &[usize], tail: usize) -> Vec<u8> {
     let mut bits = vec![];
     for _ in 0..preamble {
@@ -157,14 +212,19 @@ fn chain1200(audio: Vec<f32>, samp_rate: Float, blocks: &mut Vec<B>) -> (Arc<Mut
         }};
     }
     let prev = add!(VectorSource::new(audio));
+    let prev = tap("source", prev, blocks);
     let prev = add!(Hilbert::new(prev, 65, &WindowType::Hamming));
+    let prev = tap("hilbert", prev, blocks);
     let prev = add!(QuadratureDemod::new(prev, 1.0));
+    let prev = tap("quaddemod", prev, blocks);
     let taps = rustradio::fir::low_pass(samp_rate, 1100.0, 100.0, &WindowType::Hamming);
     let prev = add!(FftFilterFloat::new(prev, &taps));
+    let prev = tap("fftfilter", prev, blocks);
     let freq1 = 1200.0;
     let freq2 = 2200.0;
     let center_freq = freq1 + (freq2 - freq1) / 2.0;
     let prev = add!(rustradio::add_const::add_const(prev, -center_freq * 2.0 * std::f32::consts::PI / samp_rate));
+    let prev = tap("addconst", prev, blocks);
     let baud = 1200.0;
     let clock_filter = rustradio::iir_filter::IirFilter::new(&[0.5, 0.5]);
     let prev = add!(SymbolSync::new(
@@ -174,6 +234,7 @@ fn chain1200(audio: Vec<f32>, samp_rate: Float, blocks: &mut Vec<B>) -> (Arc<Mut
         Box::new(rustradio::symbol_sync::TedZeroCrossing::new()),
         Box::new(clock_filter),
     ));
+    let prev = tap("symbolsync", prev, blocks);
     let prev = add!(BinarySlicer::new(prev));
     let bits = Arc::new(Mutex::new(vec![]));
     let (dst, tapped) = rustradio::stream::new_stream();
@@ -334,6 +395,13 @@ fn case(rng: &mut Rng, idx: usize, which: u8) -> String {
     let got = store.lock().unwrap().clone();
     let payloads: Vec<Vec<u8>> = if gap_symbols > 0 { payloads.iter().chain(payloads.iter()).cloned().collect() } else { payloads };
     let fe = front_end_ok(&rxbits.lock().unwrap(), &levels);
+    if std::env::var("RRH_BITHASH").is_ok() {
+        let r = rxbits.lock().unwrap();
+        eprintln!("rxbits len={} hash={:x} packets={}", r.len(), hash_list(r.iter().map(|b| *b as u128)), got.len());
+        if let Ok(path) = std::env::var("RRH_BITDUMP") {
+            let _ = std::fs::write(path, r.iter().map(|b| b.to_string()).collect::<String>());
+        }
+    }
     if std::env::var("RRH_DEBUG").is_ok() {
         let r = rxbits.lock().unwrap();
         // best alignment (both polarities)
@@ -461,8 +529,14 @@ pub fn run(args: &[String]) -> Vec<String> {
     let cases = arg_usize(args, "--cases", 10);
     let mut rng = Rng::new(seed);
     let mut out = vec![];
+    // a replay (`--only i`) runs just that case: every case has its own forked generator
+    let only = arg(args, "--only").and_then(|s| s.parse::<usize>().ok());
     for i in 0..cases {
         let mut r = rng.fork();
+        if only.is_some() && only != Some(i) {
+            out.push(String::new());
+            continue;
+        }
         out.push(case(&mut r, i, (i % 2) as u8));
     }
     if arg_usize(args, "--long", 1) != 0 {
